@@ -1,5 +1,6 @@
-(* C09 for the family id3f: the callback receives (old tag size - needed, file size), its result is the padding in the
-   saved file, a negative result is rejected, and returning info.padding >= 0 keeps the size and every payload offset. *)
+(* C09 for the family id3f: the callback receives (old tag size - needed, size of the data behind the tag), its result is
+   the padding in the saved file, a negative result is rejected, and returning info.padding >= 0 keeps the size and
+   every payload offset. *)
 From Coq Require Import ZArith List Bool Lia.
 Import ListNotations.
 Require Import Base.Py Base.ZList Gen.Gen_tags Model.Splice Model.Id3Util Model.Fam_id3f
@@ -9,21 +10,21 @@ Open Scope Z_scope.
 Theorem C09_id3f_callback : forall f s fr o f',
   id3f_wf f = true -> id3f_parse f = Ok s -> frames_ok (o_v2 o) fr = true -> v1_hyp (i_mid s) o ->
   id3f_save f fr o = Ok f' ->
-  let r := o_cb o (tag_size s - (zlen fr + 10)) (zlen f) in
+  let r := o_cb o (tag_size s - (zlen fr + 10)) (zlen f - tag_size s) in
   0 <= r /\ exists s', id3f_parse f' = Ok s' /\ id3f_padding s' = r /\ tag_size s' = 10 + zlen fr + r.
 Proof. exact c09_callback. Qed.
 Print Assumptions C09_id3f_callback.
 
 Theorem C09_id3f_negative_rejected : forall f s fr o,
   id3f_parse f = Ok s -> (o_v2 o = 3 \/ o_v2 o = 4) ->
-  o_cb o (tag_size s - (zlen fr + 10)) (zlen f) < 0 -> id3f_save f fr o = Raise EMutagen.
+  o_cb o (tag_size s - (zlen fr + 10)) (zlen f - tag_size s) < 0 -> id3f_save f fr o = Raise EMutagen.
 Proof. exact c09_negative_rejected. Qed.
 Print Assumptions C09_id3f_negative_rejected.
 
-Theorem C09_id3f_keep : forall f s fr o g,
-  id3f_parse f = Ok s -> id3f_save_v2 f fr o = Ok g ->
-  o_cb o (tag_size s - (zlen fr + 10)) (zlen f) = tag_size s - (zlen fr + 10) ->
-  0 <= tag_size s - (zlen fr + 10) /\ zlen g = zlen f /\
+Theorem C09_id3f_keep : forall f s fr o g n,
+  id3f_parse f = Ok s -> id3f_save_v2 f fr o = Ok (g, n) ->
+  o_cb o (tag_size s - (zlen fr + 10)) (zlen f - tag_size s) = tag_size s - (zlen fr + 10) ->
+  0 <= tag_size s - (zlen fr + 10) /\ zlen g = zlen f /\ n = tag_size s /\
   zdrop (tag_size s) g = zdrop (tag_size s) f /\
   (forall i, tag_size s <= i < zlen f -> znth i g = znth i f).
 Proof. exact c09_keep. Qed.
@@ -32,7 +33,7 @@ Print Assumptions C09_id3f_keep.
 Theorem C09_id3f_keep_size : forall f s fr o f',
   id3f_wf f = true -> id3f_parse f = Ok s -> frames_ok (o_v2 o) fr = true -> v1_hyp (i_mid s) o ->
   id3f_save f fr o = Ok f' ->
-  o_cb o (tag_size s - (zlen fr + 10)) (zlen f) = tag_size s - (zlen fr + 10) ->
+  o_cb o (tag_size s - (zlen fr + 10)) (zlen f - tag_size s) = tag_size s - (zlen fr + 10) ->
   zlen f' - zlen (optb (v1_after (o_v1 o) (o_v1bytes o) (i_v1 s))) = zlen f - zlen (optb (i_v1 s)).
 Proof. exact c09_keep_size. Qed.
 Print Assumptions C09_id3f_keep_size.
